@@ -219,6 +219,18 @@ async def req(st, filters, sub_id="s", auth_token=None, client=None, timeout=20)
     return out, "eose"
 
 
+async def drain_to_eose(q, timeout=20):
+    """after BaseStorage.subscribe: consume the stored answer up to and including its EOSE marker, so that what is
+    counted afterwards is live delivery only (a stored query that is still running when events are accepted would
+    legitimately deliver them a second time)"""
+    out = []
+    while True:
+        sid, ev = await asyncio.wait_for(q.get(), timeout)
+        if ev is None:
+            return out
+        out.append(ev)
+
+
 def ev_obj(e):
     """Event object -> plain dict"""
     return {"id": e.id, "pubkey": e.pubkey, "created_at": e.created_at, "kind": e.kind,
